@@ -45,6 +45,12 @@ class StubPipeline:
 
     def resume(self, job, tee_output=True):
         self.log.append(("resume", job["pids"][0], tee_output))
+        # the real resume() waits for the pipeline: other threads run meanwhile
+        from . import pysched
+
+        sch = pysched.active()
+        if sch is not None and sch.me() is not None:
+            sch.point()
 
 
 def _events():
